@@ -63,6 +63,11 @@ def tsan_stage(cases):
     return dict(engine='rc', harness='ts', variant='tsan', procs=8, cases=cases, timeout=(300 if cases <= 1000 else 3600), env=TSAN_ENV)
 
 
+def sched_enum(stages, harness, k, procs, timeout, at=1):
+    """bounded-exhaustive schedules (harness enumerator): every schedule with <= k preemptions of a fixed list of small thread programs"""
+    stages['stages'].insert(at, dict(engine='enum', harness=harness, procs=procs, timeout=timeout, env={'VERIF_ENUM_K': str(k)}))
+
+
 PROPS = {}
 
 
@@ -86,7 +91,7 @@ COMMON_ASSUME = [
     'nothing is proved: "held" means held on every generated case; bounds are those of the grammar (see DESIGN.md section 3)',
 ]
 
-q, t = std_stages('cbl', 2500, 150000, fuzz_runs=1000000)
+q, t = std_stages('cbl', 2500, 150000, fuzz_runs=200000)
 # clang's native __GNUC__ == 4 selects the 'GCC 4 patch' version of CallbackList::operator(): a second build covers it
 q['stages'].append(dict(engine='rc', harness='cbl', variant='clang4', procs=8, cases=1200, timeout=900))
 t['stages'].append(dict(engine='rc', harness='cbl', variant='clang4', procs=16, cases=50000, timeout=3600))
@@ -98,7 +103,7 @@ prop('C01', 'exploration',
      COMMON_ASSUME + ['argument values are sampled from int/Tracked pools', 'insert/remove through a handle of a different live list are not generated (documented UB)'],
      q, t)
 
-q, t = multi_stages([('cbl', 2500, 100000), ('disp', 2000, 60000)], fuzz=[('cbl', 1000000)])
+q, t = multi_stages([('cbl', 2500, 100000), ('disp', 2000, 60000)], fuzz=[("cbl", 200000)])
 q['stages'].append(dict(engine='rc', harness='cbl', variant='clang4', procs=8, cases=1200, timeout=900))
 t['stages'].append(dict(engine='rc', harness='cbl', variant='clang4', procs=16, cases=50000, timeout=3600))
 prop('C02', 'exploration',
@@ -131,7 +136,7 @@ prop('C08', 'exploration',
      'non-trivial = a callback was removed while an invocation was running, or a list/queue was destroyed non-empty',
      COMMON_ASSUME, q, t)
 
-q, t = std_stages('queue', 8000, 150000, fuzz_runs=1000000)
+q, t = std_stages('queue', 8000, 150000, fuzz_runs=200000)
 prop('C05', 'exploration',
      'rapidcheck-generated single-threaded EventQueue histories (<=80 ops): enqueue (lvalue/temporary), process, processOne, processIf, processUntil (scripted predicates, with and without '
      'arguments), peekEvent, takeEvent(+dispatch), clearEvents, emptyQueue, waitFor(0), DisableQueueNotify scopes, listener changes; listener and predicate scripts enqueue, change listeners and '
@@ -146,7 +151,7 @@ prop('C13', 'exploration',
      'stably sorted by (comparator class, enqueue sequence); non-trivial = a tie between events of different rounds, slot reuse, >=3 events consumed',
      COMMON_ASSUME, q, t)
 
-q, t = std_stages('disp', 2500, 100000, fuzz_runs=500000)
+q, t = std_stages('disp', 2500, 100000, fuzz_runs=150000)
 # argument evaluation order is compiler-dependent: the same harness is also built with g++
 q['stages'].append(dict(engine='rc', harness='disp', variant='gxx', procs=8, cases=1500, timeout=900))
 t['stages'].append(dict(engine='rc', harness='disp', variant='gxx', procs=16, cases=50000, timeout=3600))
@@ -161,37 +166,44 @@ prop('C04', 'exploration',
 SCHED_ASSUME = COMMON_ASSUME + [
     'schedules are sequentially consistent interleavings that switch only at Threading-policy operations (mutex, atomic, condition variable) and EVENTPP_VERIF_POINT hooks; weak-memory effects and torn reads are not explored',
     'the condition variable is the harness model of std::condition_variable (lost notifications when nobody waits, optional spurious wake-ups, timeouts fired by the scheduler)',
+    'bounded-exhaustive stage: preemption-bounded (K=1 quick, K=2 thorough) over a fixed list of small thread programs; forced switches take the lowest or the highest runnable thread (both are run), time-outs fire only when nothing else can run, no spurious wake-ups; which waiter a notify_one wakes is fixed per program',
 ]
 q, t = std_stages('cq', 10000, 150000)
+sched_enum(q, 'cq', 1, 8, 900)
+sched_enum(t, 'cq', 2, 16, 5400)
 q['stages'].append(tsan_stage(600))
 t['stages'].append(tsan_stage(20000))
 prop('C06', 'exploration',
      'generated thread programs (2-5 threads x <=5 calls: enqueue, DisableQueueNotify scopes, process, processOne, processIf, processUntil, takeEvent, peekEvent, clearEvents, emptyQueue) on EventQueue '
-     '(scheduler mutex and the library SpinLock) and HeterEventQueue, executed under a harness-owned scheduler (random walk, PCT, sticky random; schedule bytes are part of the case); oracle = per-event '
-     'ledger (exactly one of dispatched-once / taken-once / destroyed-inside-clearEvents), payload intact, call results, per (producer, consumer) FIFO when no predicate declines, no deadlock, '
+     '(scheduler mutex and the library SpinLock) and HeterEventQueue, executed under a harness-owned scheduler (random walk, PCT, sticky random; schedule bytes are part of the case), plus every schedule with <=1 (quick) / <=2 (thorough) preemptions of 42 fixed small thread programs (bounded-exhaustive stage); oracle = per-event '
+     'ledger (exactly one of dispatched-once / taken-once / destroyed-inside-clearEvents), payload intact, call results, per (producer, consumer) FIFO (an inversion is legitimate only when the consumer\'s own processIf dispatched the newer event and skipped the older one; an inversion behind the put-back of another thread\'s processIf/processUntil is known finding E11, counted and excluded; any other is a violation), no deadlock, '
      'and mutual exclusion of the hook-declared critical sections (no thread arrives inside a section over queueList / freeList / the listener map while another thread is parked inside a section over the same container); '
-     'second stage = the same call vocabulary on real threads (std::mutex, OS schedule) under ThreadSanitizer with the documented unlocked reads suppressed, exactly-once delivery counters; '
+     'second stage = the same call vocabulary on real threads (std::mutex and the library SpinLock, whose acquire/release orders ThreadSanitizer models; OS schedule) under ThreadSanitizer with the documented unlocked reads suppressed, exactly-once delivery counters; '
      'non-trivial = a producer call overlapped a consumer call, two consumer calls overlapped, and a preemption happened inside a critical section or at an unlocked pre-check',
      SCHED_ASSUME + ['the real-thread ThreadSanitizer stage is probabilistic (the OS owns the schedule); its reports are conclusive, its silence is not'], q, t,
-     technique='property-based testing of generated thread programs x generated schedules under a controlled cooperative scheduler, per-event history oracle; generated real-thread programs under ThreadSanitizer')
+     technique='property-based testing of generated thread programs x generated schedules under a controlled cooperative scheduler, per-event history oracle; preemption-bounded exhaustive schedule enumeration of fixed small programs; generated real-thread programs under ThreadSanitizer')
 
 q, t = std_stages('cq', 10000, 200000)
+sched_enum(q, 'cq', 1, 8, 900)
+sched_enum(t, 'cq', 2, 16, 5400)
 prop('C07', 'exploration',
-     'generated programs of waiter threads (wait / waitFor then drain), enqueuers (optionally inside nested DisableQueueNotify scopes) and processors under the harness-owned scheduler; '
+     'generated programs of waiter threads (wait / waitFor then drain), enqueuers (optionally inside nested DisableQueueNotify scopes) and processors under the harness-owned scheduler, plus every schedule with <=1 (quick) / <=2 (thorough) preemptions of 24 fixed small programs (bounded-exhaustive stage); '
      'oracle = at every quiescent state (no runnable thread) a parked waiter with pending events and no DisableQueueNotify alive is a lost wake-up; otherwise waiters are released by sentinel enqueues; '
      'every returned wait must have had a step with a possibly non-empty queue and no certainly-alive DisableQueueNotify; waitFor false only after its timeout fired; '
      'non-trivial = a wait was in progress when an enqueue or the destruction of a DisableQueueNotify completed',
      SCHED_ASSUME + ['liveness is decided as the safety property "no quiescent state with a parked waiter, pending events and notification enabled" (sound because the harness owns the scheduler and woken waiters drain)'],
      q, t,
-     technique='property-based testing of generated thread programs x generated schedules under a controlled cooperative scheduler, quiescent-state oracle for lost wake-ups')
+     technique='property-based testing of generated thread programs x generated schedules under a controlled cooperative scheduler, quiescent-state oracle for lost wake-ups; preemption-bounded exhaustive schedule enumeration of fixed small programs')
 
 q, t = multi_stages([('queue', 1500, 60000), ('cq', 8000, 150000)])
+sched_enum(q, 'cq', 1, 8, 900, at=2)
+sched_enum(t, 'cq', 2, 16, 5400, at=2)
 prop('C11', 'exploration',
      'single-threaded half: listeners and predicates of process/processOne/processIf/processUntil call emptyQueue()/waitFor(0) (queue harness); concurrent half: observer threads calling emptyQueue / waitFor while '
-     'other threads enqueue, process, processOne, takeEvent, clearEvents under the harness-owned scheduler; oracle = an observation of "empty" over steps [t0,t1] requires every event whose enqueue returned before t0 '
+     'other threads enqueue, process, processOne, takeEvent, clearEvents under the harness-owned scheduler, plus every schedule with <=1 (quick) / <=2 (thorough) preemptions of 22 fixed small programs (bounded-exhaustive stage); oracle = an observation of "empty" over steps [t0,t1] requires every event whose enqueue returned before t0 '
      'to have had its listener return by t1, or to have been taken/cleared by a call begun before t1; non-trivial = an observation overlapped a processing call that was dispatching',
      SCHED_ASSUME, q, t,
-     technique='property-based testing: lock-step queue model (single thread) + generated thread programs x schedules under a controlled scheduler with an interval oracle')
+     technique='property-based testing: lock-step queue model (single thread) + generated thread programs x schedules under a controlled scheduler with an interval oracle; preemption-bounded exhaustive schedule enumeration of fixed small programs')
 
 q, t = std_stages('remover', 8000, 150000)
 prop('C15', 'exploration',
@@ -211,7 +223,7 @@ prop('C16', 'exploration',
      'turning true on a nested trigger) with other listeners present',
      COMMON_ASSUME, q, t)
 
-q, t = std_stages('heter', 3000, 150000, fuzz_runs=500000)
+q, t = std_stages('heter', 3000, 150000, fuzz_runs=150000)
 q['stages'].append(dict(engine='rc', harness='heter', variant='gxx', procs=8, cases=1500, timeout=900))
 t['stages'].append(dict(engine='rc', harness='heter', variant='gxx', procs=16, cases=50000, timeout=3600))
 prop('C14', 'exploration',
@@ -255,18 +267,20 @@ prop('C12', 'exploration',
      q, t)
 
 q, t = std_stages('cl', 10000, 150000)
+sched_enum(q, 'cl', 1, 8, 900)
+sched_enum(t, 'cl', 2, 16, 5400)
 q['stages'].append(tsan_stage(600))
 t['stages'].append(tsan_stage(20000))
 prop('C03', 'exploration',
      'generated thread programs (0-4 initial callbacks, 2-5 threads x <=4 calls: append, prepend, insert(before h), remove(h), ownsHandle(h), empty, forEach, invoke) on CallbackList (scheduler mutex and the library SpinLock) and on '
-     'EventDispatcher keyed by a user type whose comparison/hash/copy are scheduling points (std::map and std::unordered_map), executed under the harness-owned scheduler (random walk, PCT, sticky; schedule bytes are part of the case); '
+     'EventDispatcher keyed by a user type whose comparison/hash/copy are scheduling points (std::map and std::unordered_map), executed under the harness-owned scheduler (random walk, PCT, sticky; schedule bytes are part of the case), plus every schedule with <=1 (quick) / <=2 (thorough) preemptions of 77 fixed two- and three-thread programs on each subject (bounded-exhaustive stage); '
      'oracle = Wing-Gong linearizability search over the add/remove/query calls (program order + real-time order of non-overlapping calls, every return value, ending in the observed final order), traversal rules (no callback twice, '
      'everything that stayed is visited, only callbacks that could be in the list, survivors in list order), deep probe after join (ownsHandle of every handle, remove survivors one by one re-enumerating), ledger, mutual exclusion of the hook-declared critical sections over the one list / the one listener map; '
-     'second stage = append/remove/dispatch on real threads (std::mutex, OS schedule) under ThreadSanitizer with the documented unlocked reads suppressed; '
+     'second stage = append/remove/dispatch on real threads (std::mutex and the library SpinLock, whose acquire/release orders ThreadSanitizer models; OS schedule) under ThreadSanitizer with the documented unlocked reads suppressed; '
      'non-trivial = two threads issued overlapping calls on one list, one of them a structural change, with a preemption inside a critical section or at an unlocked access',
      SCHED_ASSUME + ['handles are shared through a harness table filled when an add returns; a handle of another event is never passed (documented UB)'],
      q, t,
-     technique='property-based testing of generated thread programs x generated schedules under a controlled cooperative scheduler, linearizability (Wing-Gong) oracle; generated real-thread programs under ThreadSanitizer')
+     technique='property-based testing of generated thread programs x generated schedules under a controlled cooperative scheduler, linearizability (Wing-Gong) oracle; preemption-bounded exhaustive schedule enumeration of fixed small programs; generated real-thread programs under ThreadSanitizer')
 
 q, t = multi_stages([('cbl_f', 200, 20000), ('queue_f', 200, 20000), ('remover_f', 200, 20000), ('heter_f', 200, 20000)])
 prop('C09', 'fault_enumeration',
